@@ -138,7 +138,8 @@ impl Stats {
         self.fins += o.fins;
         self.rsts += o.rsts;
         self.advances += o.advances;
-        self.sim_ms += o.sim_ms;
+        // (advances of 5e9 s x hundreds of thousands of runs do not fit 64 bits of milliseconds)
+        self.sim_ms = self.sim_ms.saturating_add(o.sim_ms);
         self.idle_closes += o.idle_closes;
         self.write_blocked_seen += o.write_blocked_seen;
         self.quiet_silent += o.quiet_silent;
@@ -316,7 +317,7 @@ impl<'a> Driver<'a> {
                 self.exec.advance_ms(*ms);
                 self.elapsed_ms += ms;
                 self.stats.advances += 1;
-                self.stats.sim_ms += ms;
+                self.stats.sim_ms = self.stats.sim_ms.saturating_add(*ms as u64);
                 self.fp.u8(5);
                 self.fp.u64(*ms);
                 let now = self.exec.now();
